@@ -120,6 +120,8 @@ def f(**kw):
     pyscript.o = str(len(cnt))
     test.sink(v=kw.get("arg"))
     service.call("test", "sink", v2=kw.get("arg"))
+    test.sink_only(v3=kw.get("arg"))
+    service.call("test", "sink_opt", v4=kw.get("arg"), return_response=True)
     event.fire("out2", context=kw["context"], a=1)
     event.fire("out3", context="notctx", b=2)
     rec("f", kw, "end")
@@ -244,6 +246,15 @@ def run_case(cname, legacy, seq, sched):
             sink_calls.append((dict(call.data), call.context))
 
         w.hass.services.async_register("test", "sink", sink)
+
+        async def sink_resp(call):
+            sink_calls.append((dict(call.data), call.context))
+            return {"echo": dict(call.data)} if call.return_response else None
+
+        from homeassistant.core import SupportsResponse
+
+        w.hass.services.async_register("test", "sink_only", sink_resp, supports_response=SupportsResponse.ONLY)
+        w.hass.services.async_register("test", "sink_opt", sink_resp, supports_response=SupportsResponse.OPTIONAL)
         bus_out = []
         w.hass.bus.async_listen("out", lambda ev: bus_out.append(("out", dict(ev.data), ev.context)))
         w.hass.bus.async_listen("out2", lambda ev: bus_out.append(("out2", dict(ev.data), ev.context)))
@@ -347,7 +358,7 @@ def check_emit(calls, bus_out, sink_calls, ctx_ids):
     inv = {v: k for k, v in ctx_ids.items()}
     outs = [b for b in bus_out if b[0] == "out"]
     states = [b for b in bus_out if b[0] == "state"]
-    if not (len(outs) == len(states) == len(starts) and len(sink_calls) == 2 * len(starts)):
+    if not (len(outs) == len(states) == len(starts) and len(sink_calls) == 4 * len(starts)):
         return {"kind": "emit-count", "expected": len(starts), "observed": (len(outs), len(states), len(sink_calls))}
     for s, o in zip(starts, outs):
         exp_parent = inv.get(s[10])
@@ -361,10 +372,10 @@ def check_emit(calls, bus_out, sink_calls, ctx_ids):
         if st[2].parent_id != inv.get(s[10]):
             return {"kind": "context-parent", "what": "state set", "expected": s[10], "observed": st[2].parent_id}
     for i, s in enumerate(starts):
-        for data, ctx in sink_calls[2 * i: 2 * i + 2]:
+        for data, ctx in sink_calls[4 * i: 4 * i + 4]:
             if ctx.parent_id != inv.get(s[10]):
-                return {"kind": "context-parent", "what": "service call", "expected": s[10], "observed": ctx.parent_id}
-            if data not in ({"v": s[5]}, {"v2": s[5]}):
+                return {"kind": "context-parent", "what": "service call " + "/".join(data), "expected": s[10], "observed": ctx.parent_id}
+            if data not in ({"v": s[5]}, {"v2": s[5]}, {"v3": s[5]}, {"v4": s[5]}):
                 return {"kind": "service-call-data", "expected": s[5], "observed": data}
     if len(by_parent) != len(starts):
         return {"kind": "context-not-distinct", "expected": len(starts), "observed": len(by_parent)}
